@@ -221,6 +221,10 @@ pub(crate) mod control;
 pub(crate) mod endpoint;
 pub(crate) mod util;
 
+#[cfg(fe2o3_amqp_verif)]
+#[doc(hidden)]
+pub mod verif;
+
 pub mod auth;
 pub mod connection;
 pub mod frames;
